@@ -60,6 +60,26 @@ def run(ctx):
             continue
         akeys.add(k)
         C.ok('C15-ORDER', k, 'allowed', sample={'fn': e['fn'], 'held': e['held'].desc() + '@' + own_str(e['held'].own), 'acquired': e['acq'].desc() + '@' + own_str(e['acq'].own), 'relation': e['rel'], 'why': 'respects order / try / fresh'} if len(akeys) % 25 == 0 else None)
+    # ---- the other half of the known wait cycles ----------------------------------------------------
+    # An Element lock held while the Model/File lock is awaited respects the order - but as long as the tree contains the opposite edges
+    # (Model/File held -> Element awaited, the "inverted" findings), each such function is one half of a wait cycle with each of them.
+    # The functions that do this today are listed in tables/c15_up_edges.json; one more is one more way to deadlock, not a new class.
+    ups = {}
+    for e in allowed:
+        if e['held'].desc().startswith('Element') and e['acq'].desc().startswith(('Model', 'File')) and ':blocking' in e['acq'].desc() and ':try' not in e['held'].desc():
+            ups.setdefault(e['fn'], e)
+    inverted = [k for k, e in seen.items() if e['verdict'] == 'inverted']
+    table = set(json.load(open(os.path.join(VERIF, 'tables', 'c15_up_edges.json')))['functions'])
+    C.rule('C15-CYCLE', 'while Model/File -> Element inversions exist, the functions that await the Model/File lock with an Element lock held are a closed, reviewed set (tables/c15_up_edges.json): each of them closes a wait cycle with every inversion')
+    if inverted:
+        for fn in sorted(ups):
+            e = ups[fn]
+            if fn in table:
+                C.ok('C15-CYCLE', '%s|element-held-while-model-awaited|listed' % fn, 'half of the known cycles (see the inverted findings)')
+            else:
+                C.fail('C15-CYCLE', '%s|element-held-while-model-awaited|closes-cycle-with-known-inversion' % fn, '%s holds %s and then waits (blocking) for %s at %s: together with a thread that holds the model lock and waits for that element '
+                       '(e.g. check_references, serialize, load - the inverted findings) neither can proceed. The function is not among those that did this on the reviewed tree' % (fn, e['held'].desc(), e['acq'].desc(), e['acq'].where), e['where'])
+    C.extra['element_then_model_functions'] = sorted(ups)
     C.floor('C15-ORDER.acquisitions', n_acq, 90)
     C.floor('C15-ORDER.edges', len(G.edges), 200)
     C.extra['acquisition_sites'] = n_acq
